@@ -53,7 +53,7 @@ def run(ctx):
     rng = ctx.rng
     n_decl = 60 if not ctx.thorough else 600
     ctx.rule("declarations: continuous bounds at scales 1e-300..1e300 (symmetric, one-sided, 1-ulp wide, asymmetric), "
-             "discrete choice lists of 1..6, permutations of 1..7 distinct items of mixed type, multi/binary/multi-objective of 1..4 children; "
+             "discrete choice lists of 1..6 (built directly, derived by model_copy(update=…) from a longer one, or re-assigned after use) and of 16384 / 16385 / 20000 / 10^6 choices, permutations of 1..7 distinct items of mixed type, multi/binary/multi-objective of 1..4 children; "
              "values: in range, out of range, boundaries, ±1 ulp around bounds, huge, ±inf, NaN, fractional, numpy scalar types, ties in permutation keys; "
              "a case is (declaration, value, value type, operation); trivial = none (every case exercises clip/int/argsort)")
     C = Cases(ctx)
@@ -96,17 +96,26 @@ def run(ctx):
 
     # ---------------- discrete ----------------
     pools = [["a", "b", "c", "d", "e", "f"], [10, 20, 30, 40, 50, 60], [0.5, "x", 3, None, (1, 2), True]]
-    for n in range(1, 7):
-        for pool in pools:
+    big = [(N, list(range(N))) for N in (16384, 16385, 20000, 10 ** 6)]       # index arithmetic in doubles: len − 1, len − ε, … near powers of two
+    for n, pool, how in [(n, pool, how) for n in range(1, 7) for pool in pools for how in ("fresh", "copy-update", "assigned")] + [(N, pl, "fresh") for N, pl in big]:
+        if True:
             choices = pool[:n]
-            v = DiscreteVariable(name="d", choices=choices)
+            if how == "fresh":
+                v = DiscreteVariable(name="d", choices=choices)
+            elif how == "copy-update":
+                # a variable derived from another one the pydantic way: nothing computed from the OLD choice list may survive
+                v = DiscreteVariable(name="d", choices=pool + ["extra"]).model_copy(update={"choices": choices})
+            else:
+                v = DiscreteVariable(name="d", choices=pool + ["extra"])
+                v.correct(0.0)
+                v.choices = choices
             var = {"k": "disc", "n": n}
             base = [-1.0, 0.0, 0.5, 1.0, n - 1.0, n - 1 + 0.999, float(n), n + 5.5, -0.3, 1e308, -1e308, math.inf, -math.inf, math.nan,
                     float(np.nextafter(n - 1.0, math.inf)), float(np.nextafter(0.0, -math.inf)), -0.0]
             base += [rng.uniform(-2, n + 2) for _ in range(6)]
             for x0 in base:
                 for x in gen.as_numpy_variants(rng, x0):
-                    meta = {"kind": "disc", "n": n, "choices": repr(choices), "x": repr(x), "xtype": gen.type_tag(x)}
+                    meta = {"kind": "disc", "n": n, "choices": repr(choices)[:80], "built": how, "x": repr(x), "xtype": gen.type_tag(x)}
                     ok1, y = call(v.correct, x)
                     C.add({"op": "var.correct", "var": var, "x": bits(x)}, render(ok1, y), {**meta, "op": "correct"})
                     if math.isfinite(float(x)):
